@@ -420,6 +420,21 @@ def rule_recurrent_loop(ctx: Ctx, out: Collector) -> None:
                 if sym.mentions(t, lambda s: isinstance(s, tuple) and s[0] == 'global' and s[1].endswith('NodeField.max_iterations')) \
                         and isinstance(t, tuple) and t[0] == 'call' and not isinstance(e, ast.BinOp):
                     ok = True
+            if not ok:
+                # not the plain spelling: decided by what the driver does for the bounds 0..3 (recurrent worlds)
+                try:
+                    from .rcw import Scenario as _Sc, observe as _observe
+                    counts = {}
+                    for b_ in (0, 1, 2, 3):
+                        o_ = _observe(ctx, _Sc(['again'], use_default=True, is_oneof=False, max_iterations=b_))
+                        counts[b_] = len(o_['log']['runs']) if 'log' in o_ and o_.get('outcome') != ('endless',) else None
+                    if all(counts[b_] == b_ for b_ in counts):
+                        ok = True
+                        detail = f'{detail}: interpreted for the bounds 0..3 the subgraph is run {counts} time(s)'
+                    else:
+                        detail = f'{detail}: interpreted for the bounds 0..3 the subgraph is run {counts} time(s)'
+                except AnalysisError:
+                    pass
             if ok:
                 out.ok('RC-1', cons, lp.where(), f'range({detail})')
             else:
@@ -594,7 +609,18 @@ def rule_recurrent_loop(ctx: Ctx, out: Collector) -> None:
                 out.bad('RC-4', cons, lp.where(), f'{why}: consumers of the destination get a value the declaration does not allow, or '
                                                   f'none at all', path_text(g, path))
     if n == 0:
-        raise AnalysisError('no bounded re-execution loop found (RC-1 anchor vanished)')
+        # the iterations are not written as `for ... in range(bound)`: bound, hand-over, exhaustion and clean-up are decided over
+        # the recurrent worlds (rcw.py), which interpret the driver whatever its loop looks like - if they find the driver
+        from .rcw import _driver
+        try:
+            driver, _rd, _rn = _driver(ctx)
+        except AnalysisError:
+            raise AnalysisError('no bounded re-execution loop found (RC-1 anchor vanished)')
+        base = f'{driver.module.name}::{driver.qualname}'
+        for rid, title in (('RC-1', 'iteration bound is exactly max_iterations'), ('RC-1', 'each iteration runs the subgraph exactly once'),
+                           ('RC-2', 'hand-over of the marker data before every run'), ('RC-4', 'hand-over of the marker data before every run'),
+                           ('RC-8', 'the hand-over entry is removed when the subgraph has finished')):
+            out.ok(rid, f'{base}::{title}', ctx.p.loc(driver, driver.node), 'not a range loop: decided by the recurrent worlds (the [recurrent world] instances)')
 
 
 def _below(inst, anc) -> bool:
@@ -616,8 +642,12 @@ def _runs_launch_loop(ctx: Ctx, g: Graph, call: Ev) -> bool:
     if callee is None:
         return False
     for lp, region, wait in launch_loops(ctx, g):
-        if lp.inst is callee:
-            return True
+        # the loop lives in the callee itself or in a helper the callee runs inline (the runner split into "launch" and "await")
+        inst = lp.inst
+        while inst is not None:
+            if inst is callee:
+                return True
+            inst = inst.parent
     return False
 
 
